@@ -48,6 +48,9 @@ CHECKS = {
  "C13": dict(level="exploration", engine="E3+E5", technique="generated multi-process orchestrations (start offsets, hold times, forced orderings through LD_PRELOAD gates at libc boundaries); oracle = disjoint open intervals from monotonic timestamps, successor sees predecessor's marker, every process exits 0",
    text="2-3 worker processes open the same path (existing or not yet created), commit a marker and close, under generated start offsets / hold times and with processes parked by the shim at open64, after open64, the creator's writes, fsync, mmap64 or close; all gate pairs x release orders for two processes, sampled for three. Open intervals must be pairwise disjoint, a later opener must see every earlier marker, and no open may fail or panic instead of waiting.",
    note="flock is a raw syscall: its effect is observed, not the call; timing decides which interleaving is produced, not the verdict.", ref="4/C13"),
+ "C14": dict(level="exploration", engine="E6", technique="compile-fail program generation: hand-written (type x escape route) corpus plus programs synthesised from rustdoc JSON of the public API, compiled with rustc against the freshly built rlib; programs that compile are linked and run in a remap / page-reuse probe",
+   text="Every escape program must be rejected with a borrow / lifetime (or, for thread routes, Send / Sync) error; a program that compiles is run: it copies the escaped bytes, ends the transaction, churns the database so that the file is remapped and every freed page reused, and re-reads the bytes, which must neither fault nor change, and a new write transaction must still be able to start; thread routes that compile are violations; positive controls must compile and run. The surface-driven part enumerates every public method and trait impl on every type reachable from a transaction.",
+   note="unsafe client code out of scope; thread routes apply to handles, not to plain byte slices.", ref="4/C14"),
  "C15": dict(level="exploration", engine="E1+E2", technique="differential testing against golden files written by the pinned tree (4 page sizes x current/legacy header) with generated continuation histories; refusal + unchanged bytes for every mismatching page size",
    text="Golden files produced by the pinned code are opened by the current code: dump must equal the recorded dump, the independent parser (pinned layout) must accept them, generated further transactions must commit and match the model, and opening with any other page size must be refused without touching the file.",
    note="Legacy-header files are synthesised from the pinned OldMeta layout.", ref="4/C15"),
@@ -92,6 +95,7 @@ def main():
             {"name": "E3", "path": "shim/io_shim.c + harness/src/{crash,worker}.rs", "serves_properties": ["C02","C11","C13"], "kind_free_text": "LD_PRELOAD I/O shim (write log, fault injection, gates), crash-image enumerator, worker processes"},
             {"name": "E4", "path": "harness/src/sched.rs + /repo/src/verif_hooks.rs", "serves_properties": ["C04","C09"], "kind_free_text": "cooperative schedule controller over real threads (bounded-preemption DFS by re-execution, random, PCT), driven by cfg-guarded yield points in jammdb"},
             {"name": "E5", "path": "harness/src/checks/c13.rs", "serves_properties": ["C13"], "kind_free_text": "multi-process orchestrator (worker processes + shim gates + monotonic timestamps)"},
+            {"name": "E6", "path": "progs/gen_programs.py + harness/src/checks/c14.rs", "serves_properties": ["C14"], "kind_free_text": "client-program generator (corpus + rustdoc-JSON-driven), rustc driver and runtime probe"},
             {"name": "E2", "path": "harness/src/fsck.rs", "serves_properties": ["C01","C02","C05","C06","C10","C11","C12","C15","C16"], "kind_free_text": "independent file parser / page accountant written from the pinned layout"},
         ],
         "checks": checks,
